@@ -1,6 +1,7 @@
 import HpxVerif.Model.C2V
 
 import HpxVerif.Lemmas.C2VReal
+import HpxVerif.Lemmas.EnvelopeReal6
 
 set_option autoImplicit false   -- an unknown identifier in a statement is an error, never a new variable
 
@@ -159,5 +160,84 @@ theorem c2vs_with_radius_agree (f t : Nat) (lon lat r : ℝ) :
     C2V.largestC2VsWithRadius false f t lon lat r =
       (depthsOf f t).mapM fun d => C2V.largestC2VWithRadius false d lon lat r :=
   Hpx.C2VReal.c2vs_with_radius_agree f t lon lat r
+
+/-! ## the geometric claim in the equatorial region, over the reals
+
+`latOf y = arcsin(2y/3)`; for a cell with plane centre `(x, y)` and `δ = 1/nside`: `dN δ y`, `dS δ y` (north / south
+vertex, same meridian) and `dE δ y` (east and west vertices, same parallel) are its true centre-to-vertex distances
+(`true_c2v_eqr`). -/
+
+section EquatorialEnvelope
+open Hpx Hpx.Hash Hpx.C2V Hpx.C2VReal Hpx.Proj Hpx.Cover Hpx.CellReal Hpx.EnvelopeReal Real
+
+/-- **`true_c2v_eqr`**: for a plane centre `(x, y)` with `0 ≤ x`, `x + δ ≤ 8`, `|y| + δ ≤ 1` (`0 < δ ≤ 1`: the cell and
+    its four vertices are in the equatorial region), `unproj` succeeds on the centre and on the four vertices
+    `(x, y ± δ)`, `(x + δ, y)`, `(westX x δ, y)`, and the angular distances from the centre to them are exactly
+    `dN δ y`, `dS δ y`, `dE δ y`, `dE δ y`. -/
+theorem true_c2v_eqr (x y δ : ℝ) (hδ0 : 0 < δ) (hδ1 : δ ≤ 1) (hx0 : 0 ≤ x) (hx8 : x + δ ≤ 8) (hy : |y| + δ ≤ 1) :
+    ∃ c pN pS pE pW : ℝ × ℝ,
+      unproj (α := ℝ) x y = some c ∧ unproj (α := ℝ) x (y + δ) = some pN ∧ unproj (α := ℝ) x (y - δ) = some pS ∧
+      unproj (α := ℝ) (x + δ) y = some pE ∧ unproj (α := ℝ) (westX x δ) y = some pW ∧
+      c.2 = latOf y ∧
+      adist c pN = dN δ y ∧ adist c pS = dS δ y ∧ adist c pE = dE δ y ∧ adist c pW = dE δ y :=
+  Hpx.EnvelopeReal.true_c2v_eqr x y δ hδ0 hδ1 hx0 hx8 hy
+
+/-- the same for the model function (release profile), `1 ≤ depth ≤ 29` -/
+theorem envelope_dominates_eqr (d : Nat) (hd1 : 1 ≤ d) (hd2 : d ≤ 29) (lon y : ℝ) (hy : |y| + 1 / 2 ^ d ≤ 1) :
+    ∃ v, largestC2V false d lon (latOf y) = some v ∧
+      dN (1 / 2 ^ d) y ≤ v ∧ dS (1 / 2 ^ d) y ≤ v ∧ dE (1 / 2 ^ d) y ≤ v :=
+  Hpx.EnvelopeReal.largestC2V_dominates_eqr d hd1 hd2 lon y hy
+
+/-- on the equator the envelope is `4/π·δ` while the true largest distance is `dE = π/4·δ`
+    (`dN = dS = arcsin(2δ/3) ≤ dE`): the ratio is `16/π² ≈ 1.62` at every depth.
+    (The comments of `ConstantsC2V::new` say `d_max = pi/4 * 1/nside`; the code uses `FOUR_OVER_PI`.) -/
+theorem envelope_equator_ratio (d : Nat) (lon : ℝ) :
+    c2v (Csts.new d) lon (latOf 0) = 16 / π ^ 2 * dE (1 / 2 ^ d) 0 :=
+  Hpx.EnvelopeReal.envelope_equator_ratio d lon
+
+/-- **`largestC2V_dominates_cell`** (ℝ, release profile, every depth `1 … 29`, every cell whose centre is strictly inside
+    the equatorial band): `largest_center_to_vertex_distance(d, lon, lat)` evaluated at `(lon, lat) = center(d, hash)` is
+    at least the angular distance from `center(d, hash)` to each of the four `vertices(d, hash)`. -/
+theorem envelope_dominates_every_equatorial_cell (cfg : Cfg) (d hash b i j : ℕ) (hd1 : 1 ≤ d) (hd2 : d ≤ 29) (hh : hash < Layer.nHash d)
+    (hdec : Layer.decodeHash cfg d hash = some ⟨b, i, j⟩) (hb : b < 12) (hi : i < 2 ^ d) (hj : j < 2 ^ d)
+    (hband : |cellCy d b i j| < 1) :
+    ∃ (c s e n w : ℝ × ℝ) (v : ℝ), center (α := ℝ) cfg d hash = some c ∧
+      vertices (α := ℝ) cfg d hash = some [s, e, n, w] ∧ largestC2V false d c.1 c.2 = some v ∧
+      adist c s ≤ v ∧ adist c e ≤ v ∧ adist c n ≤ v ∧ adist c w ≤ v :=
+  Hpx.EnvelopeReal.largestC2V_dominates_cell cfg d hash b i j hd1 hd2 hh hdec hb hi hj hband
+
+/-- the model function with radius (release), depth `1 … 29`, cells whose centre is not below the band -/
+theorem with_radius_dominates_equatorial_band (d : Nat) (hd1 : 1 ≤ d) (hd2 : d ≤ 29) (lon lat r : ℝ)
+    (hA : |lat| + r < tl) (y : ℝ) (hy : |y| + 1 / 2 ^ d ≤ 1) (hband : |lat| - r ≤ |latOf y|) :
+    ∃ v, largestC2VWithRadius false d lon lat r = some v ∧
+      dN (1 / 2 ^ d) y ≤ v ∧ dS (1 / 2 ^ d) y ≤ v ∧ dE (1 / 2 ^ d) y ≤ v :=
+  Hpx.EnvelopeReal.largestC2VWithRadius_dominates_band d hd1 hd2 lon lat r hA y hy hband
+
+/-- the model function (release), depth `1 … 29` -/
+theorem envelope_dominates_anywhere_in_equatorial_cell (d : Nat) (hd1 : 1 ≤ d) (hd2 : d ≤ 29) (lon yp y : ℝ) (hy : |y| + 1 / 2 ^ d ≤ 1)
+    (hp : |yp - y| ≤ 1 / 2 ^ d) (hp1 : |yp| < 1) :
+    ∃ v, largestC2V false d lon (latOf yp) = some v ∧
+      dN (1 / 2 ^ d) y ≤ v ∧ dS (1 / 2 ^ d) y ≤ v ∧ dE (1 / 2 ^ d) y ≤ v :=
+  Hpx.EnvelopeReal.largestC2V_dominates_in_cell d hd1 hd2 lon yp y hy hp hp1
+
+/-- **`c2v_below_true_on_transition_ring`** (ℝ, release profile, every depth `1 … 29`, every valid cell `(b, i, j)` whose
+    centre ordinate is `1`, i.e. whose centre is on the north transition latitude).  `center` returns a position `c` of
+    latitude `tl`, `vertex … 2` the north vertex `n`, and there is an ordinate `y0 < 1` such that for every `yp ∈ (y0, 1)`
+    the plane point `(x_c, yp)` — which is inside the cell: same abscissa as the centre, `|yp − 1| < 1/n` — un-projects to a
+    position `p` of latitude `< tl` where `largest_center_to_vertex_distance(d, p)` is strictly smaller than the angular
+    distance from `c` to `n`. -/
+theorem f23_below_true_on_transition_ring (cfg : Cfg) (d hash b i j : ℕ) (hd1 : 1 ≤ d) (hd2 : d ≤ 29)
+    (hh : hash < Layer.nHash d) (hdec : Layer.decodeHash cfg d hash = some ⟨b, i, j⟩) (hb : b < 12) (hi : i < 2 ^ d)
+    (hj : j < 2 ^ d) (hring : cellCy d b i j = 1) :
+    ∃ (c n : ℝ × ℝ) (y0 : ℝ), center (α := ℝ) cfg d hash = some c ∧ vertex (α := ℝ) cfg d hash 2 = some n ∧
+      c.2 = tl ∧ y0 < 1 ∧
+      ∀ yp, y0 < yp → yp < 1 →
+        |yp - cellCy d b i j| < 1 / 2 ^ d ∧
+        ∃ (p : ℝ × ℝ) (v : ℝ), unproj (α := ℝ) (norm8 (cellCx d b i j)) yp = some p ∧ |p.2| < tl ∧
+          largestC2V false d p.1 p.2 = some v ∧ v < adist c n :=
+  Hpx.EnvelopeReal.c2v_below_true_on_transition_ring cfg d hash b i j hd1 hd2 hh hdec hb hi hj hring
+
+
+end EquatorialEnvelope
 
 end Hpx.C16
